@@ -2,6 +2,7 @@
 #define PARSENUM_H_
 
 #include <assert.h>
+#include <ctype.h>
 #include <errno.h>
 #include <inttypes.h>
 #include <math.h>
@@ -191,6 +192,13 @@ parsenum_unsigned(const char * s, uintmax_t min, uintmax_t max,
 		errno = EINVAL;
 	else if ((val < min) || (val > max) || (val > typemax))
 		errno = ERANGE;
+	else if (val != 0) {
+		/* strtoumax negates "-N" modulo 2^64; that is out of range. */
+		while (isspace((unsigned char)(*s)))
+			s++;
+		if (*s == '-')
+			errno = ERANGE;
+	}
 	return (val);
 }
 
